@@ -1,5 +1,6 @@
 /- line-protocol dispatch for the `num` engine: `num <op> <a> <b>` -/
 import OsmoVerif.Model.Num
+import OsmoVerif.Model.NumInt
 namespace OsmoVerif.Num
 
 def showOpt : Option Int → String
@@ -73,6 +74,114 @@ def chainLine (args : List String) : String :=
     | none => "bad-op"
   | _ => "bad-op"
 
+/-! ### integer side (Model/NumInt.lean): `bi.*` osmomath.BigInt, `si.*` sdk Int, BigDec ↔ integer ops -/
+
+def showOptErr : Option Int → String
+  | some v => s!"ok {v}"
+  | none => "err"
+
+def showRes : Res → String
+  | .ok v => s!"ok {v}"
+  | .err => "err"
+  | .panic => "panic"
+
+def hexVal (c : Char) : Option Nat :=
+  if '0' ≤ c ∧ c ≤ '9' then some (c.toNat - '0'.toNat)
+  else if 'a' ≤ c ∧ c ≤ 'f' then some (c.toNat - 'a'.toNat + 10)
+  else none
+
+/-- strings travel hex-encoded (two lower-case hex digits per byte), so that any byte can be sent -/
+def hexDecode : List Char → Option (List Char)
+  | [] => some []
+  | a :: b :: rest =>
+    match hexVal a, hexVal b, hexDecode rest with
+    | some x, some y, some t => some (Char.ofNat (x * 16 + y) :: t)
+    | _, _, _ => none
+  | _ => none
+
+/-- `op [hex]` (no argument = the empty string) -/
+def strArg (f : List Char → String) (args : List String) : String :=
+  match args with
+  | [] => f []
+  | [h] => match hexDecode h.toList with
+    | some cs => f cs
+    | none => "bad-op"
+  | _ => "bad-op"
+
+def tern (f : Int → Int → Int → String) (args : List String) : String :=
+  match args with
+  | [a, b, c] => match a.toInt?, b.toInt?, c.toInt? with
+    | some x, some y, some z => f x y z
+    | _, _, _ => "bad-op"
+  | _ => "bad-op"
+
+def unStr (f : Int → String) (args : List String) : String :=
+  match args with
+  | [a] => match a.toInt? with
+    | some x => f x
+    | none => "bad-op"
+  | _ => "bad-op"
+
+def stepNumInt (op : String) (args : List String) : Option String :=
+  match op with
+  -- BigDec ↔ integer
+  | "mulInt64" => some (bin BigDec.mulInt64 args)
+  | "quoInt64" => some (bin BigDec.quoInt64 args)
+  | "truncateInt64" => some (un BigDec.truncateInt64 args)
+  | "roundInt64" => some (un BigDec.roundInt64 args)
+  | "isInteger" => some (unStr (fun a => if BigDec.isInteger a then "ok 1" else "ok 0") args)
+  | "newFromBigIntWithPrec" | "newFromBigIntMutWithPrec" | "newFromIntWithPrec" | "newWithPrec" =>
+    some (bin BigDec.fromIntWithPrec args)
+  | "fromSDKInt" => some (un (fun i => BigDec.fromIntWithPrec i 0) args)
+  | "fromDecMulDec" => some (bin BigDec.fromDecMulDec args)
+  | "divIntByU64" => some (tern (fun i u r => showRes (divIntByU64 i u r)) args)
+  | "bd.unmarshal" => some (strArg (fun cs => showOptErr (BigDec.unmarshalChars cs)) args)
+  -- osmomath.BigInt
+  | "bi.new" => some (un BigInt.ofBig args)
+  | "bi.withDecimal" => some (bin BigInt.withDecimal args)
+  | "bi.add" | "bi.addRaw" => some (bin BigInt.add args)
+  | "bi.sub" | "bi.subRaw" => some (bin BigInt.sub args)
+  | "bi.mul" | "bi.mulRaw" => some (bin BigInt.mul args)
+  | "bi.quo" | "bi.quoRaw" => some (bin BigInt.quo args)
+  | "bi.mod" | "bi.modRaw" => some (bin BigInt.mod args)
+  | "bi.neg" => some (un BigInt.neg args)
+  | "bi.abs" => some (un BigInt.abs args)
+  | "bi.min" => some (bin BigInt.min args)
+  | "bi.max" => some (bin BigInt.max args)
+  | "bi.toDec" => some (un BigInt.toDec args)
+  | "bi.int64" => some (un BigInt.int64 args)
+  | "bi.uint64" => some (un BigInt.uint64 args)
+  | "bi.cmp" | "si.cmp" => some (bin (fun a b => some (BigInt.cmp a b)) args)
+  | "bi.fromStr" | "bi.unmarshal" => some (strArg (fun cs => showOptErr (BigInt.fromChars cs)) args)
+  | "bi.toStr" => some (unStr (fun a => "ok " ++ String.ofList (BigInt.toChars a)) args)
+  | "bi.size" => some (unStr (fun a => s!"ok {BigInt.size a}") args)
+  | "bi.strRoundtrip" | "bi.marshalRoundtrip" => some (unStr (fun a => showOptErr (BigInt.fromChars (BigInt.toChars a))) args)
+  -- sdk Int
+  | "si.new" => some (un SInt.ofBig args)
+  | "si.withDecimal" => some (bin SInt.withDecimal args)
+  | "si.add" | "si.addRaw" => some (bin SInt.add args)
+  | "si.sub" | "si.subRaw" => some (bin SInt.sub args)
+  | "si.mul" | "si.mulRaw" => some (bin SInt.mul args)
+  | "si.quo" | "si.quoRaw" => some (bin SInt.quo args)
+  | "si.mod" | "si.modRaw" => some (bin SInt.mod args)
+  | "si.neg" => some (un BigInt.neg args)
+  | "si.abs" => some (un BigInt.abs args)
+  | "si.min" => some (bin BigInt.min args)
+  | "si.max" => some (bin BigInt.max args)
+  | "si.toLegacyDec" => some (un SInt.toLegacyDec args)
+  | "si.int64" => some (un BigInt.int64 args)
+  | "si.uint64" => some (un BigInt.uint64 args)
+  | "si.fromStr" | "si.unmarshal" => some (strArg (fun cs => showOptErr (SInt.fromChars cs)) args)
+  | "si.strRoundtrip" | "si.marshalRoundtrip" => some (unStr (fun a => showOptErr (SInt.fromChars (BigInt.toChars a))) args)
+  -- LegacyDec ↔ integer
+  | "d.mulInt64" => some (bin Dec.mulInt args)
+  | "d.quoInt64" => some (bin Dec.quoInt args)
+  | "d.truncateInt64" => some (un Dec.truncateInt64 args)
+  | "d.roundInt64" => some (un Dec.roundInt64 args)
+  | "d.newFromBigIntWithPrec" | "d.newFromIntWithPrec" | "d.newWithPrec" => some (bin Dec.fromIntWithPrec args)
+  | _ => none
+
+
 def stepNum (op : String) (args : List String) : String :=
   match op with
   | "chain" => chainLine args
@@ -128,6 +237,6 @@ def stepNum (op : String) (args : List String) : String :=
   | "d.truncateInt" => un Dec.truncateInt args
   | "d.roundInt" => un Dec.roundInt args
   | "d.truncateDec" => un Dec.truncateDec args
-  | _ => "bad-op"
+  | _ => (stepNumInt op args).getD "bad-op"
 
 end OsmoVerif.Num
